@@ -103,35 +103,37 @@ Section IDFacts.
   Qed.
 
   (* scopes whose user claims may appear *)
-  Definition granted : list string :=
-    if is_exchange f then rq_scopes rq else restrict (cl_drop_id cl) (rq_scopes rq).
+  Definition granted : list string := id_scopes f cl rq access.
 
   Lemma userinfo_scopes_granted s x :
     id_userinfo_scopes f cl rq access = Some s -> string_in x s = true -> string_in x granted = true.
   Proof.
-    unfold id_userinfo_scopes, granted. destruct (is_exchange f).
-    - intros E; inversion E; subst; auto.
-    - set (s0 := restrict (cl_drop_id cl) (rq_scopes rq)).
-      destruct (negb (access =s "") && negb (cl_assert cl)).
-      + destruct (remove_userinfo s0) eqn:Er; [discriminate|]. intros E; inversion E; subst s; clear E.
-        rewrite <- Er. unfold remove_userinfo, string_in. rewrite !existsb_exists.
-        intros (y & Hy & Hxy). apply filter_In in Hy as [Hy _]. eauto.
-      + destruct s0 eqn:Es; [discriminate|]. intros E; inversion E; subst; auto.
+    unfold id_userinfo_scopes, granted. destruct (is_exchange f) eqn:Ex.
+    - intros E; inversion E; subst. unfold id_scopes. now rewrite Ex.
+    - destruct (id_scopes f cl rq access) eqn:Es; [discriminate|]. intros E; inversion E; subst; auto.
   Qed.
 
   Lemma id_user_claims :
     ((i_name ic =s "") || string_in "profile" granted) = true
     /\ ((i_email ic =s "") || string_in "email" granted) = true
-    /\ (negb (i_email_verified ic) || string_in "email" granted) = true.
+    /\ (negb (i_email_verified ic) || string_in "email" granted) = true
+    /\ ((i_username ic =s "") || string_in "profile" granted) = true
+    /\ ((i_phone ic =s "") || string_in "phone" granted) = true
+    /\ (negb (i_phone_verified ic) || string_in "phone" granted) = true
+    /\ ((i_addr ic =s "") || string_in "address" granted) = true.
   Proof.
     unfold ic, mk_id_token.
-    destruct (id_userinfo_scopes f cl rq access) as [s|] eqn:Es; [|cbn; auto].
+    destruct (id_userinfo_scopes f cl rq access) as [s|] eqn:Es; [|cbn; repeat split; reflexivity].
     pose proof (userinfo_scopes_granted s "profile" Es) as Hp.
     pose proof (userinfo_scopes_granted s "email" Es) as He.
-    cbn. destruct u as [x|]; cbn.
-    - destruct (string_in "profile" s); [rewrite Hp by reflexivity; rewrite orb_true_r|cbn];
-      (destruct (string_in "email" s); [rewrite He by reflexivity; rewrite !orb_true_r|cbn]); auto.
-    - auto.
+    pose proof (userinfo_scopes_granted s "phone" Es) as Hph.
+    pose proof (userinfo_scopes_granted s "address" Es) as Ha.
+    cbn. destruct u as [x|]; cbn; [|repeat split; reflexivity].
+    (destruct (string_in "profile" s); [rewrite Hp by reflexivity|]);
+    (destruct (string_in "email" s); [rewrite He by reflexivity|]);
+    (destruct (string_in "phone" s); [rewrite Hph by reflexivity|]);
+    (destruct (string_in "address" s); [rewrite Ha by reflexivity|]);
+    cbn; rewrite ?orb_true_r; repeat split; reflexivity.
   Qed.
 End IDFacts.
 
@@ -350,9 +352,14 @@ Proof.
     as (Iiss & Iaud & Iazp & _ & Iexp & Iiat & Iauth & Inonce & Iacr & Iamr & Iath & Ich & Iex).
   pose proof (id_sub Hf (cs_issuer c) (cs_flow c) (cs_client c) (cs_key c) (cs_user c) (cs_req c) acc (cs_now0 c)) as Isub.
   pose proof (id_user_claims Hf (cs_issuer c) (cs_flow c) (cs_client c) (cs_key c) (cs_user c) (cs_req c) acc (cs_now0 c))
-    as (Un & Ue & Uv).
+    as (Un & Ue & Uv & Uu & Up & Upv & Ua).
   rewrite <- Hic in *.
-  unfold id_token_ok. rewrite Hdr. fold (granted (cs_flow c) (cs_client c) (cs_req c)).
+  assert (Hg : id_granted c (model_response c) = granted (cs_flow c) (cs_client c) (cs_req c) acc).
+  { unfold id_granted, granted, id_scopes. rewrite Hdr.
+    assert (Has : the_assert c = cl_assert (cs_client c)).
+    { unfold the_assert. destruct (cs_flow c); try reflexivity. discriminate Hh. }
+    rewrite Has. reflexivity. }
+  unfold id_token_ok. rewrite Hg.
   split_and.
   - rewrite Hj. apply signed_by_current_model.
   - destruct (consistent c) eqn:Ec; [|reflexivity].
@@ -375,6 +382,10 @@ Proof.
   - exact Un.
   - exact Ue.
   - exact Uv.
+  - exact Uu.
+  - exact Up.
+  - exact Upv.
+  - exact Ua.
   - now rewrite Iex.
 Qed.
 
@@ -590,9 +601,11 @@ Section Readable.
     /\ i_at_hash ic = (if access_wire (r_access r) =s "" then ""
                        else claim_hash H (sk_alg k) (access_wire (r_access r)))
     /\ i_c_hash ic = (if flow_code f =s "" then "" else claim_hash H (sk_alg k) (flow_code f))
-    /\ (i_name ic <> "" -> string_in "profile" (granted f cl rq) = true)
-    /\ (i_email ic <> "" -> string_in "email" (granted f cl rq) = true)
-    /\ (i_email_verified ic = true -> string_in "email" (granted f cl rq) = true)
+    /\ (let g := granted f cl rq (access_wire (r_access r)) in
+        (i_name ic <> "" \/ i_username ic <> "" -> string_in "profile" g = true)
+        /\ (i_email ic <> "" \/ i_email_verified ic = true -> string_in "email" g = true)
+        /\ (i_phone ic <> "" \/ i_phone_verified ic = true -> string_in "phone" g = true)
+        /\ (i_addr ic <> "" -> string_in "address" g = true))
     /\ i_extra ic = [].
   Proof.
     intro Hid. destruct (resp_r_id j ic Hid) as (_ & Hj & Hic).
@@ -600,14 +613,15 @@ Section Readable.
     pose proof (id_core H issuer f cl k u rq acc now)
       as (Iiss & Iaud & Iazp & _ & Iexp & Iiat & Iauth & Inonce & Iacr & Iamr & Iath & Ich & Iex).
     pose proof (id_sub H issuer f cl k u rq acc now) as Isub.
-    pose proof (id_user_claims H issuer f cl k u rq acc now) as (Un & Ue & Uv).
-    rewrite <- Hic in *.
+    pose proof (id_user_claims H issuer f cl k u rq acc now) as (Un & Ue & Uv & Uu & Up & Upv & Ua).
+    rewrite <- Hic in *. cbv zeta.
     repeat split; try assumption.
     - rewrite Iaud. apply string_in_append_client.
     - rewrite Iexp, Iiat. lia.
-    - intro Hn. apply eqb_neq_s in Hn. now rewrite Hn in Un.
-    - intro Hn. apply eqb_neq_s in Hn. now rewrite Hn in Ue.
-    - intro Hn. now rewrite Hn in Uv.
+    - intros [Hn|Hn]; apply eqb_neq_s in Hn; [now rewrite Hn in Un | now rewrite Hn in Uu].
+    - intros [Hn|Hn]; [apply eqb_neq_s in Hn; now rewrite Hn in Ue | now rewrite Hn in Uv].
+    - intros [Hn|Hn]; [apply eqb_neq_s in Hn; now rewrite Hn in Up | now rewrite Hn in Upv].
+    - intro Hn. apply eqb_neq_s in Hn. now rewrite Hn in Ua.
   Qed.
 
   (* ... and the relying party's check sequence accepts it *)
@@ -706,8 +720,8 @@ Definition ex_case : case :=
   mkCase 0 "https://op.example.com" (FCode "code-1")
     (mkClient "web" false (-30) 3600 300 true true [] [])
     (mkKey "sig-es384-1" "ES384" KEc 0) []
-    (Some (mkUser "Alice" "alice@example.com"))
-    (mkReq "tenant:alice" ["web"] ["openid"; "profile"; "offline_access"] "n1" "" ["pwd"] 1790000000)
+    (Some (mkUser "Alice" "alice@example.com" "u-alice" "tel-alice" "addr-alice"))
+    (mkReq "tenant:alice" ["web"] ["openid"; "profile"; "address"; "offline_access"] "n1" "" ["pwd"] 1790000000)
     "st" (mkIds "at2" "rt2" "at3") (mkEnt (repeat 7 16) "")
     1790000100500000000 1790000100600000000 1790000100700000000
     (mkVerifier "https://op.example.com" "web" 30000000000 0 0 (Some "n1") None ["ES384"]) ["ES384"]
